@@ -30,19 +30,32 @@ def richardson2(f, x, h):
     return (-f(x + 2 * h) + 16 * f(x + h) - 30 * f(x) + 16 * f(x - h) - f(x - 2 * h)) / (12 * h * h)
 
 
-def fd_greek(torch, pricefn, greek, s, t, v, k, m, call):
-    """derivative of the REAL price function in float64"""
+def fd_greek(torch, pricefn, greek, s, t, v, k, m, call, shrink=1.0):
+    """derivative of the REAL price function in float64.  The spot steps are tied to the length scale w = v sqrt(t) of the
+    formulas in log-spot (a fixed relative step is far too coarse for small w); `shrink` scales every step."""
     P = lambda s_, t_, v_: float(call_bs(torch, pricefn, s_, t_, v_, k, m, call))
     S = k * math.exp(s)
+    w = v * math.sqrt(t)
     if greek == "delta":
-        return richardson(lambda S_: P(math.log(S_ / k), t, v), S, 1e-3 * S)
+        return richardson(lambda S_: P(math.log(S_ / k), t, v), S, min(1e-3, w / 20) * shrink * S)
     if greek == "gamma":
-        return richardson2(lambda S_: P(math.log(S_ / k), t, v), S, 2e-3 * S)
+        return richardson2(lambda S_: P(math.log(S_ / k), t, v), S, min(2e-3, w / 10) * shrink * S)
     if greek == "vega":
-        return richardson(lambda v_: P(s, t, v_), v, 1e-3 * v)
+        return richardson(lambda v_: P(s, t, v_), v, 1e-3 * shrink * v)
     if greek == "theta":
-        return -richardson(lambda t_: P(s, t_, v), t, 1e-3 * t)
+        return -richardson(lambda t_: P(s, t_, v), t, 1e-3 * shrink * t)
     raise ValueError(greek)
+
+
+def fd_disagrees(torch, got, tolf, pricefn, greek, s, t, v, k, m, call):
+    """None if the Greek agrees with the finite differences of the real price at one of three step sizes (truncation error
+    falls 16x per halving of the step; a wrong Greek disagrees at all of them), else the last finite-difference value"""
+    fd = None
+    for shrink in (1.0, 0.5, 0.25):
+        fd = fd_greek(torch, pricefn, greek, s, t, v, k, m, call, shrink)
+        if abs(got - fd) <= tolf(fd):
+            return None
+    return fd
 
 
 # ---- user pricers for autogreek ---------------------------------------------------------------
@@ -103,14 +116,14 @@ def check(ctx):
         metas.append((case, got))
         # predicate on a subsample (4 price evaluations each): Greek == derivative of the real price
         if g.chance(0.35):
-            if pd and (m >= 0 or abs(m - s) < 1e-9 and False):
-                fd = 0.0
-            else:
-                fd = fd_greek(torch, pricefn, greek, s, t, v, k, m, call)
             scale = {"delta": 1.0 / k, "gamma": 1.0 / (k * k), "vega": k, "theta": k}[greek] if fam == "european" else \
                 {"delta": 1.0 / k, "gamma": 1.0 / (k * k), "vega": 1.0, "theta": 1.0}[greek]
-            tol = 2e-5 * max(abs(fd), abs(got), scale * 0.05)
-            if abs(got - fd) > tol:
+            tolf = lambda fd_: 2e-5 * max(abs(fd_), abs(got), scale * 0.05)
+            if pd and m >= 0:
+                fd = None if abs(got) <= tolf(0.0) else 0.0
+            else:
+                fd = fd_disagrees(torch, got, tolf, pricefn, greek, s, t, v, k, m, call)
+            if fd is not None:
                 ctx.fail(f"bs_{fn} is not the {greek} (derivative) of its own price", case, key=f"bs_{fn}:not-derivative",
                          detail={"closed_form": got, "finite_difference": fd})
     try:
@@ -156,11 +169,35 @@ def check(ctx):
                           "wrt": {"delta": "spot", "gamma": "spot", "vega": "vol", "theta": "time"}[greek],
                           "order": 2 if greek == "gamma" else 1, "elems": [enc_flt([s, t, v, k, m if pd else s])]})
         dual_meta.append((case, got))
-        fd = fd_greek(torch, pricefn, greek, s, t, v, k, m, call)
-        tol = 5e-5 * max(abs(fd), abs(got), 0.05 * (1.0 / k if greek in ("delta",) else 1.0 / (k * k) if greek == "gamma" else 1.0))
-        if abs(got - fd) > tol:
+        tolf = lambda fd_: 5e-5 * max(abs(fd_), abs(got), 0.05 * (1.0 / k if greek in ("delta",) else 1.0 / (k * k) if greek == "gamma" else 1.0))
+        fd = fd_disagrees(torch, got, tolf, pricefn, greek, s, t, v, k, m, call)
+        if fd is not None:
             ctx.fail(f"module {which}.{greek} is not the derivative of the module's own price", case,
                      key=f"module:{which}.{greek}:not-derivative", detail={"module": got, "finite_difference": fd})
+    # ---------------- functional lookback Greeks (autogreek of the functional price; vega / theta through the gamma relations)
+    for _ in range(60 if ctx.tier == "quick" else 900):
+        s, t, v, k, m = gen_point(g, True)
+        if abs(m) < 0.02:
+            m = m + 0.05 if m >= s + 0.05 else m
+        greek = g.choice(["delta", "gamma", "vega", "theta"])
+        st, val, _ = call_impl(call_bs, torch, "lookback_" + greek, [s], [t], [v], k, [m], True)
+        case = {"fn": "lookback_" + greek, "s": s, "t": t, "v": v, "k": k, "m": m, "call": True}
+        ctx.case(case, True, tag="functional_lookback_greek")
+        ctx.stats[f"fn=lookback_{greek}"] += 1
+        ctx.traces += 1
+        if st != "ok":
+            ctx.fail("functional lookback Greek raised inside the open parameter domain", case, key=f"bs_lookback_{greek}:error", detail=val)
+            continue
+        got = float(val)
+        dual_reqs.append({"op": "bs_dual", "fn": "lookback_price", "call": True,
+                          "wrt": {"delta": "spot", "gamma": "spot", "vega": "vol", "theta": "time"}[greek],
+                          "order": 2 if greek == "gamma" else 1, "elems": [enc_flt([s, t, v, k, m])]})
+        dual_meta.append((case | {"greek": greek}, got))
+        tolf = lambda fd_: 5e-5 * max(abs(fd_), abs(got), 0.05 * (1.0 / k if greek == "delta" else 1.0 / (k * k) if greek == "gamma" else 1.0))
+        fd = fd_disagrees(torch, got, tolf, "lookback_price", greek, s, t, v, k, m, True)
+        if fd is not None:
+            ctx.fail(f"bs_lookback_{greek} is not the {greek} (derivative) of bs_lookback_price", case, key=f"bs_lookback_{greek}:not-derivative",
+                     detail={"functional": got, "finite_difference": fd})
     try:
         douts = ctx.driver(dual_reqs)
     except DriverBroken as e:
@@ -170,6 +207,9 @@ def check(ctx):
         o = mo[0]
         # second-order quantities go through two levels of differentiation of erf-based formulas on both sides
         tol = 2e-5 if case["greek"] == "gamma" else 1e-7
+        if case.get("fn", "").startswith("lookback_") or case.get("module") == "lookback":
+            # functional lookback vega / theta are computed from the (second-order) gamma; the lookback formula cancels at small t
+            tol = 2e-5 if case["greek"] != "delta" else 2e-6
         if "ok" not in o or not rel_close(got, float_of_bits(o["ok"]), tol, 1e-9):
             ctx.disagree("module_greek_vs_dual_model", case, got, float_of_bits(o["ok"]) if "ok" in o else o)
     # ---------------- autogreek on user pricers, every accepted parameterisation
